@@ -9,7 +9,7 @@ from ..runner import Acc, h8
 LEVEL = "model_checking"
 RULE = (
     "every interleaving with at most d deviations of producer actions, consumer actions, amend "
-    "requests, hash results, reporter replies, optional external writes to an input and clock "
+    "requests, hash results, reporter replies, optional external writes to an input (new content, or a replacement that keeps size, mode and mtime) and clock "
     "ties; non-trivial: a consumer command overlapped its producer, an amend was deferred, or an "
     "external write landed inside a command window"
 )
